@@ -117,8 +117,16 @@ pub fn events(thorough: bool) -> Vec<Ev> {
     e.extend(pad_msg("12", 0, 0, 140, &[4, 5, 30], 0, 8192));
     v.push(Ev { name: "run 11200, 2 wires, 1 pad group", run: 11200, banks: e });
     // simulated multi-track events (structured orders only)
-    for li in if thorough { vec![7u64, 1234, 2999, 4001] } else { vec![7u64, 2999] } {
-        v.push(Ev { name: "forward-model lattice event", run: sim, banks: event_banks(&lattice_event(li, 0), 100 + li as u32) });
+    // simulated multi-track events with noise avalanches (ties between Hough bins become likely)
+    for li in if thorough { vec![7u64, 1234, 2999, 4001, 55, 808, 3111, 2020] } else { vec![7u64, 808] } {
+        let spec = lattice_event(li, 0);
+        let mut hits = ionisation(m, &spec);
+        let mut x = 0x9E37_79B9u64.wrapping_mul(li + 1);
+        for _ in 0..24 {
+            x = x.wrapping_mul(6364136223846793005).wrapping_add(1442695040888963407);
+            hits.push(Hit { wire: ((x >> 20) % 256) as usize, bin: 5 + ((x >> 30) % 250) as usize, z: -1.0 + 2.0 * (((x >> 40) % 1000) as f64 / 1000.0), amp: 40.0 + ((x >> 50) % 60) as f64 });
+        }
+        v.push(Ev { name: "forward-model lattice event with 24 noise avalanches", run: sim, banks: banks(m, &signals(m, spec.sigma_z, &hits), 100 + li as u32) });
     }
     v
 }
@@ -256,15 +264,24 @@ pub fn run(args: &Args) -> i32 {
     let mut plan: Vec<(usize, u64, u64)> = Vec::new(); // (event, bank order k, group order)
     for &i in &large {
         let n = evs[i].banks.len() as u64;
-        let orders = 2 + n + (n - 1) + n;
-        for k in 0..orders {
-            for g in [0u64, 1, 2, 5, 23, 119, 719, 5039, 40319, 362879] {
+        // order indices (see c04::order_of): 0 identity, 1 reversal, 2..2+n rotations, then n-1 adjacent
+        // transpositions, then n move-to-front. Small events: all of them x 10 group orders; big events:
+        // identity, reversal, every adjacent transposition, rotations and move-to-front on a stride x 4 group orders.
+        let big = n > 24;
+        let stride = if big { (n / 16).max(1) } else { 1 };
+        let groups: &[u64] = if big { &[0, 1, 119, 362879] } else { &[0, 1, 2, 5, 23, 119, 719, 5039, 40319, 362879] };
+        let mut ks: Vec<u64> = vec![0, 1];
+        ks.extend((0..n).step_by(stride as usize).map(|r| 2 + r));
+        ks.extend((0..n - 1).step_by(if big && !thorough { 4 } else { 1 }).map(|t| 2 + n + t));
+        ks.extend((0..n).step_by(stride as usize).map(|m| 2 + n + (n - 1) + m));
+        for k in ks {
+            for &g in groups {
                 plan.push((i, k, g));
             }
         }
     }
     let refs: Vec<Option<Outcome>> = evs.iter().map(|e| evaluate(e.run, &e.banks, Some(0)).ok().map(|r| r.0)).collect();
-    rep.run("structured-orders", plan.len() as u64, 900, false, "events with more banks: identity, reversal, every rotation, every adjacent transposition, every move-to-front x 10 group orders (identity, reversal-like and high-index permutations)", |k, loc| {
+    rep.run("structured-orders", plan.len() as u64, 900, false, "events with more banks: identity, reversal, every adjacent transposition (quick: every 4th on big events), rotations and move-to-front (all of them up to 24 banks, on a stride of n/16 beyond) x 10 (big events: 4) group orders", |k, loc| {
         let (i, ord, g) = plan[k as usize];
         let e = &evs[i];
         let perm = order_of(e.banks.len(), ord, false);
